@@ -112,6 +112,8 @@ def _relations_one(M, rec, rng, desc, vals, pars, ek, symvals):
             vinf[l["id"]]["v_ctrl"] = [math.inf] * len(l["vsl"])
         a = step_numbers(M, desc, vinf, pars, ek, symvals)
         rec.count("relation_R1_inf")
+        if rec.counters["relation_R1_inf"] == 1:
+            rec.sample({"relation": "R1 infinite limit vs plain link", "engine": ek, "desc": desc, "vals": vinf, "pars": pars})
         rec.seen("relations", ("R1-infinite-limit", ek))
         cmp_all(rec, "R1 infinite limit vs plain link", ek, desc, a, base, vinf, pars)
         # R1b: no limited segment
